@@ -18,7 +18,8 @@ SEEDED = os.path.join(VERIF, "seeded")
 
 def evaluate(name, suite=True):
     d = os.path.join(SEEDED, name)
-    prop = name.split("-")[0].rstrip("b")
+    parts = name.split("-")
+    prop = (parts[1] if parts[0] == "R2" else parts[0]).rstrip("b")
     cmd = ["/venv/bin/python", os.path.join(VERIF, "tools", "eval_seeded.py"), prop, os.path.join(d, "patch.diff"),
            os.path.join(d, "demo.py"), "--tiers", "quick,thorough"]
     if not suite:
@@ -41,7 +42,9 @@ def evaluate(name, suite=True):
         "breaks": am.get("breaks", ""),
         "needs_to_manifest": am.get("needs", ""),
         "files": am.get("files", []),
-        "author": "independent sub-agent given only the property text and a scratch worktree",
+        "author": ("adversarial round: sub-agent given the property text, a scratch worktree and a general description of "
+                   "what the checkers do" if name.startswith("R2-") else
+                   "independent sub-agent given only the property text and a scratch worktree"),
         "confirmed": {
             "patch_applies_to_repo_HEAD": res.get("patch_applies"),
             "demo_passes_without_patch": res.get("demo_passes_on_clean"),
